@@ -59,6 +59,16 @@ CHECKS.update({
    technique='Coq induction over operation histories on a hand-written state machine; AST-generated decorator facts; trace correspondence',
    ref='DESIGN.md section 7, C15'),
 })
+CHECKS.update({
+ 'C09': dict(
+   text='Machine-checked proof (Coq) of the deterministic core of conditional-inverse sampling on the generated model: the generated sampler draws v then c and returns '
+        '(percent_point(c,v), v) (shape, order, tau guard before any draw); Rosenblatt event {ppf(c,v) <= a} = {c <= h(a,v)} (Clayton for all theta>0; Frank under the solver hypothesis) '
+        'and the v-integral of h(a,.) equals the copula increment (RInt, all three families) - hence the output law is the copula given independent uniform draws. '
+        'PARTIAL: uniformity/tau/joint-CDF of finite samples are statistical and not theorems; they are only exercised by the witness search at false-alarm level 1e-9.',
+   note=TB + 'numpy uniform draws are ideal independent U(0,1) (not a theorem); brentq oracle as in C08.',
+   technique='Coq proof (Rosenblatt event + FTC) over generated sampler; certified correspondence with patched draws; statistical oracles only in witness search',
+   ref='DESIGN.md section 7, C09'),
+})
 NOT_YET = {}
 def main():
     props = [json.loads(l) for l in open(os.path.join(V, 'properties.jsonl'))]
